@@ -285,6 +285,11 @@ def _scriptval(ex, assign, t):
     return sgn(v, t.w) if t.w == 64 else v
 
 
+def _short(s, n=400):
+    s = str(s)
+    return s if len(s) <= n else s[:n] + '...(%d chars)' % len(s)
+
+
 def _child(job, path):
     import pickle
     import resource
@@ -567,7 +572,7 @@ class Check:
         samples = []
         for r in self.results:
             for s in r.get('samples', [])[-2:]:
-                samples.append({'job': r['label'], 'mark': s.get('mark'), 'call': s['call'], 'script': s['script'], 'class_size': s.get('count')})
+                samples.append({'job': r['label'][:200], 'mark': s.get('mark'), 'call': _short(s['call']), 'script': s['script'][:40], 'class_size': s.get('count')})
         cov = {
             'states': stats.get('states', 0) + stats.get('terminals', 0),
             'transitions': stats.get('blocks', 0),
@@ -577,7 +582,7 @@ class Check:
             'bounds': self.bounds,
             'reference_validation_vs_stdlib': refval,
             'depth_limit_scaling': ({'scaled_to': self.scale_depth, 'comparison_sites_rewritten': getattr(self, 'scaled_sites', [])} if getattr(self, 'scale_depth', None) else None),
-            'jobs': [{'job': r['label'], 'ok': r['ok'], 'error': r['error'], 'wall_s': round(r['wall_s'], 2),
+            'jobs': [{'job': r['label'][:160], 'ok': r['ok'], 'error': _short(r['error'], 300) if r['error'] else None, 'wall_s': round(r['wall_s'], 2),
                       'path_classes': r.get('classes'), 'inputs_covered': str(r.get('inputs_covered')),
                       'input_space': str(r.get('input_space')), 'partition_complete': r.get('partition_complete')}
                      for r in self.results],
@@ -588,12 +593,12 @@ class Check:
             'assertions': {k: {'path_classes_holding': v[0], 'candidates': v[1]} for k, v in sorted(asserts.items())},
             'reachability_witnesses': reach,
             'vacuous': vac,
-            'unconfirmed': self.unconfirmed,
+            'unconfirmed': [{k: _short(v) for k, v in u.items()} for u in self.unconfirmed[:50]],
             'unsupported': unsupported,
             'incomplete_jobs': [r['label'] + ': ' + str(r['error']) for r in incomplete],
             'known_findings_hit': self.known_hits,
             'outside': self.outside,
-            'notes': self.notes,
+            'notes': [_short(x, 600) for x in self.notes[:50]],
             'samples_replayed': nval,
         }
         if extra:
